@@ -40,7 +40,8 @@ def main(args):
         for spec, cfg, actions in (("MC_Stream.tla", "MC_Stream_xmlh_quick.cfg", ["ReadData", "ReadDataEof", "ReadZero", "ReadEof", "PendEof", "Verdict"]),
                                    ("MC_Stream.tla", "MC_Stream_cut_quick.cfg", ["ReadData", "ReadDataEof", "ReadZero", "ReadEof", "PendEof"]),
                                    ("MC_C17.tla", "MC_C17_p2.cfg", ["Step"]),
-                                   ("MC_C18.tla", "MC_C18_hist2.cfg", ["NextHist"])):
+                                   ("MC_C18.tla", "MC_C18_hist2.cfg", ["NextHist"]),
+                                   ("Mxj.tla", "Mxj_query.cfg", ["SetterStep", "OpStep"])):
             sd = check.prepare_spec_dir(scratch)
             meta = tempfile.mkdtemp(prefix="meta_", dir=scratch)
             r = subprocess.run(["timeout", "300"] + check.tlc_cmd(spec, cfg, meta, 4, ["-coverage", "1"]), cwd=sd, stdout=subprocess.PIPE, stderr=subprocess.STDOUT, text=True)
